@@ -3,6 +3,7 @@ package main
 import (
 	"fmt"
 	"go/ast"
+	goprinter "go/printer"
 	"go/token"
 	"go/types"
 	"os"
@@ -151,6 +152,11 @@ func (ex *Exec) verifyFunction(fn *ssa.Function, con *Contract) (rep *FuncReport
 		var fs []*Term
 		bindings = append(bindings, freshVal(fv.Type(), "fv."+fv.Name(), &fs))
 		ex.addFacts(nil, fs)
+		// a captured variable lives in its own heap cell: its address is a whole object, never a
+		// field or element address
+		if p, ok := bindings[len(bindings)-1].(*Term); ok && p.Sort == SPtr {
+			ex.fact(nil, P.mk("(_ is obj)", "", SBool, []*Term{p}, nil))
+		}
 	}
 	fr := ex.newFrame(fn, args, bindings, nil)
 	fr.top = true
@@ -456,4 +462,12 @@ func (ex *Exec) assumeGlobalInv(fr *Frame, st *State, g *ssa.Global) {
 		env := &SpecEnv{ex: ex, pkg: pk, pos: ex.funcScope(top.fn, top.con).pos, st: st, old: st, objs: map[types.Object]Val{}, entry: map[types.Object]Val{}, label: "global " + gi.Var}
 		ex.fact(st, env.evalBool(gi.Clause.Text))
 	}
+}
+
+
+// nodeTextOf renders a specification expression back to compact text (callee names of assume_pure).
+func (pr *Program) nodeTextOf(n ast.Node) string {
+	var sb strings.Builder
+	_ = goprinter.Fprint(&sb, pr.Fset, n)
+	return wsRe.ReplaceAllString(sb.String(), "")
 }
